@@ -96,3 +96,37 @@ def finish(k, scn, viol, extra=None):
     if extra:
         res.update(extra)
     return res
+
+
+READ_WAITS = ("serial.readline", "select")
+IDLE_WAITS = READ_WAITS + ("q.get",)
+
+
+def quiesce(k, env, cap=240.0, extra=0.0):
+    """Block the calling (harness) thread until the line is quiet *and the host has caught up*:
+    nothing in flight on the link, the firmware has nothing scheduled, the port holds no unread
+    bytes, and every read thread is parked inside its read primitive (not stalled or halfway
+    through acting on a line).  A fixed sleep is not enough because injected thread stalls can
+    delay the read thread arbitrarily."""
+    fw, link = env["fw"], env["link"]
+    t0 = k.now
+    calm = 0
+    while k.now - t0 < cap:
+        k.sleep(0.25)
+        port = env.get("port")
+        unread = bool(getattr(port, "rxq", None)) or bool(getattr(port, "rxbuf", None))
+        me = k.me()
+        others = [t for t in k.threads if t is not me and t.state != "D"]
+        # read threads parked in their read primitive, the send thread parked on its queue, no
+        # print thread alive (connect() may return while its start-up print thread still has
+        # the final M110 to send)
+        parked = all(t.state == "B" and t.why in IDLE_WAITS for t in others)
+        if fw.pending == 0 and link.inflight == 0 and not unread and parked:
+            calm += 1
+            if calm >= 2:
+                break
+        else:
+            calm = 0
+    if extra:
+        k.sleep(extra)
+    return k.now - t0
